@@ -202,6 +202,17 @@ fn deref_lvalue(
         ast::ArithmeticTarget::ArrayElement(name, index_expr) => {
             let index_str = eval_expr_impl(index_expr, shell, depth)?.to_string();
 
+            // Under `set -u` an element of a variable that is not set at all is an error, just
+            // like the bare name (an unset element of a set array still reads as 0).
+            if shell.options().treat_unset_variables_as_error
+                && shell
+                    .env()
+                    .get(name)
+                    .is_none_or(|(_, v)| !v.value().is_set())
+            {
+                return Err(EvalError::ExpandingUnsetVariable(name.clone()));
+            }
+
             shell
                 .env()
                 .get(name)
